@@ -263,7 +263,8 @@ class Program:
                 if v:
                     out["f"][slot] = {"l": [self._exp(c) for c in v]}
             elif typ == "val":
-                out["f"][slot] = {"v": node["f"][v][1].text.decode("latin-1")}
+                # "A+B": the value is the text of the tokens in slots A and B, concatenated
+                out["f"][slot] = {"v": "".join(node["f"][x][1].text.decode("latin-1") for x in v.split("+"))}
         if node["k"] == "Root":
             out["f"]["EndTkn"] = {"t": [-1, -1], "ff": [[c, s, e] for c, s, e in self.eof.ff]}
         out["s"], out["e"] = self._span(node)
